@@ -9,8 +9,10 @@ import re._parser as sre_parse       # type: ignore
 from typing import Set
 
 from ..calls import lexer_parsers
-from ..facts import emission_sites, live_function_keys, trivially_dead, value_set
-from ..fold import RegexConst, Unknown, fold_in_fn, fold_name
+from ..facts import conjuncts, emission_sites, live_function_keys, trivially_dead, value_set
+from ..fold import RegexConst, Unknown, fold, fold_in_fn, fold_name
+from ..lexsim import LexerSim
+from ..minieval import Unsupported
 from ..model import AnalysisError, ancestors, text, walk_fn
 from .c05 import _regex_may_match
 
@@ -58,6 +60,126 @@ FAMILIES = [
 ]
 
 
+_RE_APPLY = ("match", "search", "fullmatch")
+
+
+def _target_names(t):
+    if isinstance(t, ast.Name):
+        return [t.id]
+    if isinstance(t, (ast.Tuple, ast.List)):
+        return [n for e in t.elts for n in _target_names(e)]
+    return []
+
+
+def _bind_target(t, v, env) -> bool:
+    if isinstance(t, ast.Name):
+        env[t.id] = v
+        return True
+    if isinstance(t, (ast.Tuple, ast.List)) and isinstance(v, (tuple, list)) and len(v) == len(t.elts):
+        return all(_bind_target(a, b, env) for a, b in zip(t.elts, v))
+    return False
+
+
+class PatternUse:
+    """One (pattern, discriminating constants) alternative of a regex application site."""
+
+    def __init__(self, call, method, rc, env, name):
+        self.call, self.method, self.rc, self.env, self.name = call, method, rc, env, name
+
+
+def pattern_uses(fn):
+    """The compiled patterns a function applies to its input, however they are selected: a constant named at the site
+    (``P.match(src)``, also under an if/elif chain that sets discriminating constants), or the loop variable of a loop
+    over a folded table of patterns (tuple of pairs, dict items, plain tuple ...).  Returns (uses, unresolved sites)."""
+    mod = fn.mod
+    re_aliases = {a for a, (src, orig) in mod.imports.items() if src == "re" and orig is None}
+    uses, unresolved = [], []
+    for n in walk_fn(fn.node):
+        if not (isinstance(n, ast.Call) and isinstance(n.func, ast.Attribute) and n.func.attr in _RE_APPLY):
+            continue
+        recv = n.func.value
+        if isinstance(recv, ast.Name) and recv.id in re_aliases:
+            continue                                      # re.match(pattern, text): not applied to the source
+        names = {x.id for x in ast.walk(recv) if isinstance(x, ast.Name)}
+        loop = next((a for a in ancestors(n) if isinstance(a, (ast.For, ast.comprehension)) and names & set(_target_names(a.target))), None)
+        if loop is None:
+            for a in ancestors(n):            # generator expressions: the comprehension is a child, not an ancestor
+                if isinstance(a, (ast.GeneratorExp, ast.ListComp, ast.SetComp)):
+                    for g in a.generators:
+                        if names & set(_target_names(g.target)):
+                            loop = g
+        if loop is None:
+            rc = fold_in_fn(recv, fn, default=None)
+            if not isinstance(rc, RegexConst):
+                unresolved.append(n)
+                continue
+            env = {}
+            holder = next((a for a in ancestors(n) if isinstance(a, ast.If) and any(x is n for x in ast.walk(a.test))), None)
+            if holder is not None:
+                for st in holder.body:
+                    if isinstance(st, ast.Assign) and len(st.targets) == 1 and isinstance(st.targets[0], ast.Name) \
+                            and isinstance(st.value, ast.Constant):
+                        env[st.targets[0].id] = st.value.value
+            uses.append(PatternUse(n, n.func.attr, rc, env, text(recv, 60)))
+            continue
+        it = fold_in_fn(loop.iter, fn, default=None)
+        if isinstance(it, dict):
+            it = list(it)
+        if not isinstance(it, (tuple, list)) or not it:
+            unresolved.append(n)
+            continue
+        for elem in it:
+            env = {}
+            if not _bind_target(loop.target, elem, env):
+                unresolved.append(n)
+                break
+            try:
+                rc = fold(recv, mod, dict(env))
+            except (Unknown, RecursionError):
+                rc = None
+            if not isinstance(rc, RegexConst):
+                unresolved.append(n)
+                break
+            consts = {k: v for k, v in env.items() if isinstance(v, (str, int, bool))}
+            uses.append(PatternUse(n, n.func.attr, rc, consts, _pattern_name(mod, rc) or text(recv, 60)))
+    return uses, unresolved
+
+
+def _pattern_name(mod, rc) -> str:
+    from ..model import program
+    prog = program()
+    for nm in sorted(mod.assigns):
+        try:
+            v = fold_name(nm, mod, prog)
+        except (Unknown, RecursionError):
+            continue
+        if isinstance(v, RegexConst) and v.pattern == rc.pattern and v.flags == rc.flags:
+            return nm
+    return ""
+
+
+def _guard_restrictions(fn, node, names):
+    """Restrictions `name == const` / `name in consts` that hold where *node* executes (tests of the enclosing ifs whose
+    true branch contains it; negated tests of the earlier arms of the same if/elif chain are ignored: they only widen)."""
+    out = {}
+    cur = node
+    for a in ancestors(node):
+        if isinstance(a, ast.If) and (any(cur is s for s in a.body) or any(cur is x for x in ast.walk(a.test))):
+            for c in conjuncts(a.test):
+                if any(cur is x for x in ast.walk(c)):
+                    continue
+                if isinstance(c, ast.Compare) and len(c.ops) == 1 and isinstance(c.left, ast.Name) and c.left.id in names:
+                    v = fold_in_fn(c.comparators[0], fn, default=None)
+                    if isinstance(c.ops[0], ast.Eq) and isinstance(v, (str, int)):
+                        out.setdefault(c.left.id, []).append({v})
+                    elif isinstance(c.ops[0], ast.In) and isinstance(v, (tuple, list, set, frozenset)):
+                        out.setdefault(c.left.id, []).append(set(v))
+        if isinstance(a, (ast.FunctionDef, ast.AsyncFunctionDef)):
+            break
+        cur = a
+    return {k: set.intersection(*v) for k, v in out.items()}
+
+
 def rule_digitless_exponent(run, prog):
     """R-11.5: wherever a float pattern's Exponent group can capture an exponent marker without any digit, the
     sub-parser's BAD_EXPONENT emission must be reachable for that pattern type."""
@@ -65,46 +187,135 @@ def rule_digitless_exponent(run, prog):
     run.rule("R-11.5", "LANG + guard: for each float pattern whose Exponent group can capture a digit-less exponent (language "
              "intersection with the digit-free strings is not empty), the guard of the BAD_EXPONENT emission does not exclude "
              "that pattern's type", floor=3)
-    lm = prog.mod("lexer/lexer.py")
     pf = prog.method("Lexer", "parse_float_literal")
-    # type labels:  if match := PATTERN.match(src): type = "<label>"
-    label_of = {}
-    for n in walk_fn(pf.node):
-        if isinstance(n, ast.If) and isinstance(n.test, ast.NamedExpr) and isinstance(n.test.value, ast.Call) \
-                and isinstance(n.test.value.func, ast.Attribute) and n.test.value.func.attr == "match":
-            pat = text(n.test.value.func.value)
-            for st in n.body:
-                if isinstance(st, ast.Assign) and text(st.targets[0]) == "type" and isinstance(st.value, ast.Constant):
-                    label_of[pat] = st.value.value
-    run.require(len(label_of) >= 3, "anchor vanished: the pattern-type dispatch of parse_float_literal")
+    run.require(pf is not None, "anchor vanished: Lexer.parse_float_literal")
+    uses, unresolved = pattern_uses(pf)
+    uses = [u for u in uses if "Exponent" in u.rc.pattern]
+    run.require(len(uses) >= 3 and not unresolved,
+                "cannot enumerate the patterns parse_float_literal applies (" + "; ".join(text(u, 50) for u in unresolved[:2])
+                + f"; {len(uses)} resolved)")
     # guard of the BAD_EXPONENT emission
     em = [n for n in walk_fn(pf.node) if isinstance(n, ast.Call) and text(n.func) == "Error.from_name" and n.args
           and isinstance(n.args[0], ast.Constant) and n.args[0].value == "BAD_EXPONENT"]
     run.require(len(em) >= 1, "anchor vanished: BAD_EXPONENT emission in parse_float_literal")
+    disc = set()
+    for u in uses:
+        disc |= set(u.env)
+    restr = _guard_restrictions(pf, em[0], disc)
     guards = [a for a in ancestors(em[0]) if isinstance(a, ast.If)]
-    allowed_types = None      # None = every type
-    if guards:
-        from ..facts import conjuncts
-        for c in conjuncts(guards[0].test):
-            if isinstance(c, ast.Compare) and len(c.ops) == 1 and text(c.left) == "type":
-                v = fold_in_fn(c.comparators[0], pf, default=None)
-                if isinstance(c.ops[0], ast.Eq) and isinstance(v, str):
-                    allowed_types = {v}
-                elif isinstance(c.ops[0], ast.In) and isinstance(v, (tuple, list)):
-                    allowed_types = set(v)
     nodigit = frozenset(c for c in UNIVERSE if not c.isdigit())
-    for pat, label in sorted(label_of.items()):
+    seen = set()
+    for u in sorted(uses, key=lambda u: str(u.env.get("type", u.name))):
+        label = u.env.get("type", u.name)
+        if (label, u.rc.pattern) in seen:
+            continue
+        seen.add((label, u.rc.pattern))
         try:
-            rc = fold_name(pat, lm)
-            g = group_nfa(rc.pattern, rc.flags, "Exponent")
-        except (Unknown, UnsupportedRegex) as e:
-            raise AnalysisError(f"{pat}: cannot analyse the Exponent group: {e}")
+            g = group_nfa(u.rc.pattern, u.rc.flags, "Exponent")
+        except UnsupportedRegex as e:
+            raise AnalysisError(f"{u.name}: cannot analyse the Exponent group: {e}")
         w, st = intersection_witness(g, from_template([Rep(nodigit, 1, None)]))
-        covered = allowed_types is None or label in allowed_types
-        run.ob("R-11.5", f"{pf.key}::digitless-exponent[{label}]", w is None or covered,
-               f"the Exponent group of {pat} can capture {w!r} (an exponent without digits) but BAD_EXPONENT is only emitted "
-               f"for type(s) {sorted(allowed_types) if allowed_types else 'all'}: such a constant gets no diagnostic",
+        excluded = sorted(k for k, allowed in restr.items() if k in u.env and u.env[k] not in allowed)
+        run.ob("R-11.5", f"{pf.key}::digitless-exponent[{label}]", w is None or not excluded,
+               f"the Exponent group of {u.name} can capture {w!r} (an exponent without digits) but BAD_EXPONENT is only emitted "
+               f"for " + ", ".join(f"{k} in {sorted(restr[k])}" for k in excluded) + ": such a constant gets no diagnostic",
                guards[0].test if guards else em[0], witness=w, product_states=st["states"])
+
+
+# ------------------------------------------------------------------------------------- escapes (abstract execution)
+def _pop_escape(prog, source):
+    """Lexer.pop(use_escape=True), interpreted by the analyser on a stub source; (text, consumed, diagnostics)."""
+    sim = LexerSim(prog, source)
+    out = sim.call("pop", use_escape=True)
+    if out.kind != "ok":
+        return None, sim.pos, sim.error_names() + [f"raise {out.exc}"]
+    return out.value, sim.pos, sim.error_names()
+
+
+def _const_node(fn, pred):
+    for n in walk_fn(fn.node):
+        if isinstance(n, ast.Constant) and isinstance(n.value, str) and pred(n.value):
+            return n
+    return fn.node
+
+
+def rule_escapes(run, prog):
+    pop = prog.method("Lexer", "pop")
+    run.require(pop is not None and "use_escape" in pop.params, "anchor vanished: Lexer.pop(use_escape=...)")
+    probe = [chr(c) for c in range(32, 127) if chr(c) not in "x01234567"]
+    recognised, odd = [], []
+    try:
+        for ch in probe:
+            val, used, errs = _pop_escape(prog, "\\" + ch + "'\n")
+            if val == "\\" + ch and used == 2 and not errs:
+                recognised.append(ch)
+            elif ch in REF_ESC:
+                odd.append((ch, val, errs))
+        hexv = _pop_escape(prog, "\\x41'\n")
+        octv = _pop_escape(prog, "\\101'\n")
+    except Unsupported as e:
+        raise AnalysisError(f"Lexer.pop(use_escape=True) is outside the evaluable subset: {e}")
+    miss = sorted(REF_ESC - set(recognised))
+    node = _const_node(pop, lambda v: len(v) >= 6 and {"n", "t", "r"} <= set(v))
+    run.ob("R-11.1", "lexer/lexer.py::Lexer.pop::simple-escapes", not miss,
+           f"simple escape(s) {miss} are not recognised: valid character/string constants get UNKNOWN_ESCAPE "
+           f"({'; '.join(f'{c!r} -> {v!r} {e}' for c, v, e in odd[:3])})", node, literal="".join(recognised))
+    has_x = hexv[0] is not None and hexv[0].startswith("\\x4") and not hexv[2]
+    has_oct = octv[0] is not None and octv[0].startswith("\\1") and not octv[2]
+    run.ob("R-11.1", "lexer/lexer.py::Lexer.pop::hex-and-octal-escapes", has_x and has_oct,
+           f"the \\x or the octal escape branch of Lexer.pop is gone (\\x41 -> {hexv[0]!r} {hexv[2]}, \\101 -> {octv[0]!r} {octv[2]})",
+           pop.node)
+
+    run.rule("R-11.6", "escape digit capacity: interpreting Lexer.pop(use_escape=True) on a backslash followed by n = 1..6 "
+             "digits, the octal branch takes at least min(n, 3) digits and the \\x branch at least min(n, 2): a valid "
+             "three-digit octal / two-digit hexadecimal escape is one character", floor=2)
+    for kind, lead, digit, need in (("octal", "", "7", 3), ("hexadecimal", "x", "a", 2)):
+        short = None
+        taken = []
+        try:
+            for n in range(1, 7):
+                val, used, errs = _pop_escape(prog, "\\" + lead + digit * n + "'\n")
+                k = -1 if val is None else len(val) - 1 - len(lead)
+                taken.append(k)
+                if (k < min(n, need) or errs) and short is None:
+                    short = (n, k, val, errs)
+        except Unsupported as e:
+            run.note(f"R-11.6 undecided for the {kind} escape: Lexer.pop is outside the evaluable subset ({e})")
+            run.ob("R-11.6", f"{pop.key}::escape-digits[{kind}]", True, f"undecided: {e}", pop.node, undecided=True)
+            continue
+        run.ob("R-11.6", f"{pop.key}::escape-digits[{kind}]", short is None,
+               (f"of {short[0]} {kind} digits after the backslash only {short[1]} are taken into the escape ({short[2]!r} "
+                f"{short[3]}): a valid {need}-digit {kind} escape is split, the rest is read as ordinary characters "
+                f"(CHAR_AS_STRING in a character constant)") if short else "ok",
+               _const_node(pop, lambda v: False), digits_taken=taken)
+
+
+def rule_digit_buckets(run, prog):
+    """digits[BIN/OCT/HEX] of R-11.1: which digits parse_integer_literal flags per base, by abstract execution."""
+    pil = prog.method("Lexer", "parse_integer_literal")
+    run.require(pil is not None, "anchor vanished: Lexer.parse_integer_literal")
+    want = {"BIN": ("01", ("0b", "0B")), "OCT": ("01234567", ("0",)), "HEX": ("0123456789abcdefABCDEF", ("0x", "0X"))}
+    for name, (digits, prefixes) in want.items():
+        candidates = "0123456789abcdefABCDEF" if name == "HEX" else "0123456789"
+        bad = []
+        try:
+            for pre in prefixes:
+                for d in candidates:
+                    src = pre + "1" + d + " \n"
+                    sim = LexerSim(prog, src)
+                    out = sim.call("parse_integer_literal")
+                    errs = sim.error_names()
+                    flagged = f"INVALID_{name}_INT" in errs
+                    spans = out.kind == "ok" and out.value is not None and getattr(out.value, "value", None) == pre + "1" + d
+                    others = [e for e in errs if e != f"INVALID_{name}_INT"]
+                    if flagged != (d not in digits) or not spans or others:
+                        bad.append((src.strip(), "flagged" if flagged else "accepted", repr(out), others))
+        except Unsupported as e:
+            raise AnalysisError(f"Lexer.parse_integer_literal is outside the evaluable subset: {e}")
+        run.ob("R-11.1", f"{pil.key}::digits[{name}]", not bad,
+               f"the digit set checked for {name} constants is wrong: " + "; ".join(f"{s} is {w} ({o} {e})" for s, w, o, e in bad[:4])
+               + f"; expected exactly the digits {digits} under prefixes {list(prefixes)}",
+               _const_node(pil, lambda v, name=name: v == name or v == f"INVALID_{name}_INT"), probes=len(prefixes) * len(candidates))
 
 
 def check(run, prog):
@@ -118,65 +329,34 @@ def check(run, prog):
             raise AnalysisError(f"lexer table {name} does not fold: {e}")
 
     # ---- R-11.1 ---------------------------------------------------------------------------------
-    run.rule("R-11.1", "TABLE: the folded suffix / prefix / escape / digit tables of the lexer contain the reference sets of "
-             "C11 6.4.4 and the listed extensions (0b, u/l/ll/z/wb/i64, f/l/d, L/u/U/u8, simple escapes)", floor=9)
+    run.rule("R-11.1", "TABLE: the folded suffix / prefix / digit tables of the lexer (resolved through imports) contain the "
+             "reference sets of C11 6.4.4 and the listed extensions (0b, u/l/ll/z/wb/i64, f/l/d, L/u/U/u8); the simple escapes "
+             "Lexer.pop(use_escape=True) accepts and the digits parse_integer_literal flags per base are decided by "
+             "interpreting those methods on one representative per escape letter / (prefix, digit) pair", floor=9)
+
+    def where(name):
+        return prog.global_def(lm, name)
+
     ints = set(table("integer_suffixes"))
     miss = sorted(reference_int_suffixes() - ints)
     run.ob("R-11.1", "lexer/lexer.py::integer_suffixes", not miss,
-           f"valid integer suffix(es) {miss} are missing: such constants get INVALID_SUFFIX", lm.assigns["integer_suffixes"][0],
+           f"valid integer suffix(es) {miss} are missing: such constants get INVALID_SUFFIX", where("integer_suffixes"),
            size=len(ints))
     fl = set(table("float_suffixes"))
     miss = sorted(REF_FLOAT - fl)
     run.ob("R-11.1", "lexer/lexer.py::float_suffixes", not miss, f"valid float suffix(es) {miss} are missing",
-           lm.assigns["float_suffixes"][0])
+           where("float_suffixes"))
     qp = set(table("quote_prefixes"))
     miss = sorted(REF_PREFIX - qp)
     run.ob("R-11.1", "lexer/lexer.py::quote_prefixes", not miss, f"character/string prefix(es) {miss} are missing",
-           lm.assigns["quote_prefixes"][0])
+           where("quote_prefixes"))
     od, hd = table("octal_digits"), table("hexadecimal_digits")
     run.ob("R-11.1", "lexer/lexer.py::octal_digits", isinstance(od, str) and set(od) == set("01234567"),
-           f"octal_digits is {od!r}", lm.assigns["octal_digits"][0])
+           f"octal_digits is {od!r}", where("octal_digits"))
     run.ob("R-11.1", "lexer/lexer.py::hexadecimal_digits", isinstance(hd, str) and set(hd) == set("0123456789abcdefABCDEF"),
-           f"hexadecimal_digits is {hd!r}", lm.assigns["hexadecimal_digits"][0])
-    pop = prog.method("Lexer", "pop")
-    esc = None
-    has_x = has_oct = False
-    for n in walk_fn(pop.node):
-        if isinstance(n, ast.If) and any(isinstance(a, ast.If) and text(a.test) == "use_escape" for a in ancestors(n)) or \
-                (isinstance(n, ast.If) and text(n.test) == "use_escape"):
-            for t in ast.walk(n.test):
-                pass
-        if isinstance(n, ast.Compare) and len(n.ops) == 1 and isinstance(n.ops[0], ast.In) and text(n.left) == "temp" \
-                and any(isinstance(a, ast.If) and text(a.test) == "use_escape" for a in ancestors(n)):
-            v = fold_in_fn(n.comparators[0], pop, default=None)
-            if isinstance(v, str) and "n" in v and "t" in v:
-                esc = (v, n)
-            if isinstance(v, str) and set(v) == set("01234567"):
-                has_oct = True
-        if isinstance(n, ast.Compare) and text(n) in ("temp == 'x'", "'x' == temp"):
-            has_x = True
-    run.require(esc is not None, "anchor vanished: the simple-escape literal tested in Lexer.pop(use_escape=True)")
-    miss = sorted(REF_ESC - set(esc[0]))
-    run.ob("R-11.1", "lexer/lexer.py::Lexer.pop::simple-escapes", not miss,
-           f"simple escape(s) {miss} are not recognised: valid character/string constants get UNKNOWN_ESCAPE", esc[1],
-           literal=esc[0])
-    run.ob("R-11.1", "lexer/lexer.py::Lexer.pop::hex-and-octal-escapes", has_x and has_oct,
-           "the \\x or the octal escape branch of Lexer.pop is gone", pop.node)
-    pil = prog.method("Lexer", "parse_integer_literal")
-    buckets = {}
-    for n in walk_fn(pil.node):
-        if isinstance(n, ast.Call) and isinstance(n.func, ast.Name) and n.func.id == "_check_bad_prefix" and len(n.args) == 2:
-            name = fold_in_fn(n.args[0], pil, default=None)
-            bucket = fold_in_fn(n.args[1], pil, default=None)
-            guard = [a for a in ancestors(n) if isinstance(a, ast.If)]
-            buckets[name] = (bucket, text(guard[0].test) if guard else "", n)
-    want = {"BIN": (set("01"), {"0b", "0B"}), "OCT": (set("01234567"), {"0"}), "HEX": (set("0123456789abcdefABCDEF"), {"0x", "0X"})}
-    for name, (digits, prefixes) in want.items():
-        b = buckets.get(name)
-        ok = b is not None and isinstance(b[0], str) and set(b[0]) == digits and all(repr(p) in b[1] for p in prefixes)
-        run.ob("R-11.1", f"{pil.key}::digits[{name}]", ok,
-               f"the digit set checked for {name} constants is {b[0] if b else None!r} under `{b[1] if b else ''}`; expected "
-               f"{''.join(sorted(digits))} under prefixes {sorted(prefixes)}", b[2] if b else pil.node)
+           f"hexadecimal_digits is {hd!r}", where("hexadecimal_digits"))
+    rule_escapes(run, prog)
+    rule_digit_buckets(run, prog)
 
     # ---- R-11.2 ---------------------------------------------------------------------------------
     run.rule("R-11.2", "EMIT: every malformed-literal family has a live emission site of its code in the sub-parser that "
@@ -215,8 +395,8 @@ def check(run, prog):
                f"no live site emits {code} ({fam}) in Lexer.{fname}", sites[0].node if sites else None)
 
     # ---- R-11.3 ---------------------------------------------------------------------------------
-    run.rule("R-11.3", "one token per literal: each literal sub-parser has exactly one return of a Token for the recognised "
-             "case; float precedes integer precedes identifier, char/string precede identifier in Lexer.parsers", floor=5)
+    run.rule("R-11.3", "one token per literal: each literal sub-parser builds tokens of its own kind only (one per call); "
+             "float precedes integer precedes identifier, char/string precede identifier in Lexer.parsers", floor=5)
     order = [f.name for f in lexer_parsers(prog)]
 
     def before(a, b):
@@ -234,12 +414,22 @@ def check(run, prog):
         fn = prog.method("Lexer", fname)
         toks = [n for n in walk_fn(fn.node) if isinstance(n, ast.Call) and isinstance(n.func, ast.Name) and n.func.id == "Token"]
         kinds = {fold_in_fn(t.args[0], fn, default=None) for t in toks}
-        run.ob("R-11.3", f"{fn.key}::single-token", len(toks) == 1 and kinds == {kind},
-               f"{fname} builds {len(toks)} tokens of kinds {kinds}: a literal must become exactly one {kind} token", fn.node)
+        run.ob("R-11.3", f"{fn.key}::single-token", len(toks) >= 1 and kinds == {kind},
+               f"{fname} builds {len(toks)} token(s) of kinds {kinds}: a literal must become exactly one {kind} token", fn.node)
 
     # ---- R-11.4 ---------------------------------------------------------------------------------
     run.rule("R-11.4", "regex hygiene: each numeric pattern is anchored at the start and no part of it can match a "
-             "backslash, a quote or white space (one token spans the constant; head-verified pops of R-5.2)", floor=4)
+             "backslash, a quote or white space (one token spans the constant; head-verified pops of R-5.2); every pattern "
+             "the numeric sub-parsers apply to the source (named at the site, or taken from a folded table) is applied "
+             "with match() and is one of those", floor=4)
+
+    def hygiene(rc):
+        tree = sre_parse.parse(rc.pattern, rc.flags)
+        anchored = len(tree) > 0 and tree[0][0] is sre_c.AT and tree[0][1] is sre_c.AT_BEGINNING
+        bad = [repr(ch) for ch in "\\'\" \t\n" if _regex_may_match(rc.pattern, rc.flags, ch)]
+        return anchored, bad
+
+    checked = set()
     for name in ("INT_LITERAL_PATTERN", "FLOAT_EXPONENT_LITERAL_PATTERN", "FLOAT_FRACTIONAL_LITERAL_PATTERN",
                  "FLOAT_HEXADECIMAL_LITERAL_PATTERN"):
         try:
@@ -247,18 +437,30 @@ def check(run, prog):
         except Unknown as e:
             raise AnalysisError(f"{name} does not fold: {e}")
         run.require(isinstance(rc, RegexConst), f"{name} is not a compiled pattern")
-        tree = sre_parse.parse(rc.pattern, rc.flags)
-        anchored = len(tree) > 0 and tree[0][0] is sre_c.AT and tree[0][1] is sre_c.AT_BEGINNING
-        bad = [repr(ch) for ch in "\\'\" \t\n" if _regex_may_match(rc.pattern, rc.flags, ch)]
+        anchored, bad = hygiene(rc)
+        checked.add((rc.pattern, rc.flags))
         run.ob("R-11.4", f"lexer/lexer.py::{name}", anchored and not bad,
                f"{name}: " + ("not anchored at ^; " if not anchored else "") + (f"can match {bad}" if bad else ""),
-               lm.assigns[name][0])
+               prog.global_def(lm, name))
     # the patterns are applied with match() on the rest of the source
     for fname in ("parse_integer_literal", "parse_float_literal"):
         fn = prog.method("Lexer", fname)
-        numeric = ("INT_LITERAL_PATTERN", "FLOAT_EXPONENT_LITERAL_PATTERN", "FLOAT_FRACTIONAL_LITERAL_PATTERN",
-                   "FLOAT_HEXADECIMAL_LITERAL_PATTERN")
-        uses = [n for n in walk_fn(fn.node) if isinstance(n, ast.Call) and isinstance(n.func, ast.Attribute)
-                and n.func.attr in ("match", "search", "fullmatch") and text(n.func.value) in numeric]
-        run.ob("R-11.4", f"{fn.key}::match-at-position", bool(uses) and all(u.func.attr == "match" for u in uses),
-               "a numeric pattern is not applied with match() at the current position", uses[0] if uses else fn.node)
+        run.require(fn is not None, f"anchor vanished: Lexer.{fname}")
+        uses, unresolved = pattern_uses(fn)
+        why = []
+        if not uses:
+            why.append("no pattern application found")
+        if unresolved:
+            why.append("cannot resolve the pattern of " + text(unresolved[0], 50))
+        for u in uses:
+            if u.method != "match":
+                why.append(f"{u.name} is applied with {u.method}()")
+            if (u.rc.pattern, u.rc.flags) not in checked:
+                anchored, bad = hygiene(u.rc)
+                checked.add((u.rc.pattern, u.rc.flags))
+                if not anchored or bad:
+                    why.append(f"{u.name} (not one of the four numeric patterns) " + ("is not anchored at ^ " if not anchored else "")
+                               + (f"can match {bad}" if bad else ""))
+        run.ob("R-11.4", f"{fn.key}::match-at-position", not why,
+               "a numeric pattern is not applied with match() at the current position: " + "; ".join(why[:3]),
+               uses[0].call if uses else fn.node, patterns=sorted({u.name for u in uses}))
